@@ -715,10 +715,12 @@ func init() {
 		hold, err := os.OpenFile(f.path, os.O_RDWR, 0)
 		must(err)
 		must(flockEx(hold))
-		u := s.serverURL()
+		// (a server in a process of its own: nothing there runs the garbage collector on the driver's behalf, so a
+		// handle that was dropped without Close keeps its lock as it would in a real, idle server)
+		u := s.serverURLFor(s.dir)
 		conn, err := net.Dial("tcp", strings.TrimPrefix(u, "http://"))
 		must(err)
-		rel, _ := filepath.Rel(s.root, f.path)
+		rel, _ := filepath.Rel(s.dir, f.path)
 		now := wt.Timestamp(time.Now().Unix())
 		fmt.Fprintf(conn, "GET /view?file=%s&retention=-1&from=%s&until=%s&now=%s HTTP/1.1\r\nHost: x\r\n\r\n", url.QueryEscape(rel),
 			url.QueryEscape(wt.Timestamp(0).String()), url.QueryEscape(now.String()), url.QueryEscape(now.String()))
